@@ -47,6 +47,7 @@ containers through return values of self-calls (node/edge objects obtained that 
 `.meta = `, `.variable_type = `, `invalidate()`, `_add/_delete_in/outbound_edge()` are flagged on ANY receiver).
 """
 import ast
+import copy
 import hashlib
 import os
 import sys
@@ -861,6 +862,64 @@ def coq_tuple(*items):
 # ----------------------------------------------------------------------------------------------------------------
 
 
+def public_defaults(tree, fname, module_functions=False):
+    """(owner class or '', function, parameter, source text of the default) for every parameter with a default."""
+    rows = []
+
+    def fn(owner, n):
+        a = n.args
+        pos = list(a.posonlyargs) + list(a.args)
+        ds = [None] * (len(pos) - len(a.defaults)) + list(a.defaults)
+        for prm, d in list(zip(pos, ds)) + list(zip(a.kwonlyargs, a.kw_defaults)):
+            if d is not None:
+                rows.append((owner, n.name, prm.arg, ast.unparse(d)))
+
+    for n in tree.body:
+        if isinstance(n, ast.ClassDef):
+            for m in n.body:
+                if isinstance(m, (ast.FunctionDef, ast.AsyncFunctionDef)):
+                    fn(n.name, m)
+        elif isinstance(n, (ast.FunctionDef, ast.AsyncFunctionDef)) and module_functions:
+            fn('', n)
+    return rows
+
+
+def function_source_lines(tree, fname, names):
+    """The statements (docstrings stripped, comments gone, normalised by ast.unparse) of the named module-level functions."""
+    fns = {n.name: n for n in tree.body if isinstance(n, ast.FunctionDef)}
+    out = []
+    for name in names:
+        if name not in fns:
+            fail('function %s not found' % name, None, fname)
+        n = fns[name]
+        if n.decorator_list:
+            fail('function %s is decorated' % name, n, fname)
+        body = list(n.body)
+        if body and isinstance(body[0], ast.Expr) and isinstance(body[0].value, ast.Constant) and isinstance(body[0].value.value, str):
+            body = body[1:]
+        out.append('def %s(%s):' % (name, ast.unparse(n.args)))
+        # messages of raise / assert statements are not behaviour that any property speaks about: keep the exception class only
+        body = copy.deepcopy(body)
+        for st in body:
+            for x in ast.walk(st):
+                if isinstance(x, ast.Raise) and isinstance(x.exc, ast.Call):
+                    x.exc = x.exc.func
+                elif isinstance(x, ast.Assert):
+                    x.msg = None
+        for st in body:
+            for line in ast.unparse(st).splitlines():
+                out.append('    ' + line)
+    # the names must not be rebound elsewhere in the module
+    for n in ast.walk(tree):
+        if isinstance(n, (ast.Assign, ast.AugAssign, ast.AnnAssign)):
+            for t in (n.targets if isinstance(n, ast.Assign) else [n.target]):
+                if isinstance(t, ast.Name) and t.id in names:
+                    fail('%s is re-assigned' % t.id, n, fname)
+    if sum(1 for n in ast.walk(tree) if isinstance(n, ast.FunctionDef) and n.name in names) != len(names):
+        fail('a name-codec function is defined more than once', None, fname)
+    return out
+
+
 def sha256(path):
     with open(path, 'rb') as fh:
         return hashlib.sha256(fh.read()).hexdigest()
@@ -873,6 +932,8 @@ def generate(repo_root):
         'gc': 'cai_causal_graph/graph_components.py',
         'td': 'cai_causal_graph/type_definitions.py',
         'if': 'cai_causal_graph/interfaces.py',
+        'ut': 'cai_causal_graph/utils.py',
+        'id': 'cai_causal_graph/identify_utils.py',
     }
     paths = {k: os.path.join(repo_root, v) for k, v in rel.items()}
     trees = {}
@@ -972,7 +1033,7 @@ def generate(repo_root):
     out.append('(** GENERATED by tools/extract_facts.py -- DO NOT EDIT BY HAND.')
     out.append('    Regenerate:  python3 /verif/tools/extract_facts.py /repo /verif/coq/theories/Extracted.v')
     out.append('    Sources (relative to the repository root) and their sha256:')
-    for k in ('cg', 'ts', 'gc', 'td', 'if'):
+    for k in ('cg', 'ts', 'gc', 'td', 'if', 'ut', 'id'):
         out.append('      %s  %s' % (sha256(paths[k]), rel[k]))
     out.append('    Meaning of the columns: see the docstring of tools/extract_facts.py. *)')
     out.append('From Coq Require Import String List Bool.')
@@ -1051,6 +1112,23 @@ def generate(repo_root):
     )
     dcd = dont_care_direction(trees['gc'], rel['gc'])
     emit('dont_care_direction', 'list string', strs(dcd, sort=False))
+
+    rows = []
+    for k in ('cg', 'ts', 'gc'):
+        rows += public_defaults(trees[k], rel[k])
+    rows += public_defaults(trees['id'], rel['id'], module_functions=True)
+    out.append('(* (class or "" for a module-level function, function, parameter, source text of its default value) *)')
+    emit(
+        'public_defaults',
+        'list (string * string * string * string)',
+        coq_list([coq_tuple(*[coq_string(x) for x in r]) for r in rows], one_per_line=True),
+    )
+    out.append('(* get_variable_name_and_lag / get_name_with_lag of utils.py, statement by statement (docstrings stripped, ast.unparse) *)')
+    emit(
+        'name_codec_source',
+        'list string',
+        coq_list([coq_string(x) for x in function_source_lines(trees['ut'], rel['ut'], ['get_variable_name_and_lag', 'get_name_with_lag'])], one_per_line=True),
+    )
 
     watched = set(CORE_ATTRS) | cache_universe | {RESET_METHOD, RESET_DECORATOR}
     scan_interfaces(trees['if'], rel['if'], watched)
